@@ -136,6 +136,7 @@ impl<T: Qcow2IoOps> Qcow2Dev<T> {
                 // says so (the blocks written may hold new mappings too, so
                 // this has to be a flush in order)
                 l1_table.set_dirty_range(l1_table.header_entries(), l1_entries);
+                self.mark_need_flush(true);
                 self.flush_refcount().await?;
                 self.flush_mapping(&l1_table).await?;
                 self.call_fsync(0, usize::MAX, 0).await?;
